@@ -157,7 +157,8 @@ def iface_case(case):
     nz = int(rng.integers(4, 10))
     zm = float(rng.uniform(3, 10))
     full = bool(rng.random() < 0.3)
-    lv = list(range(nz + 1)) if full else [int(v) for v in rng.permutation(nz + 1)[: int(rng.integers(2, 4))]]
+    # nodes 0 .. nz + 1 always exist (the column continues above the measurement node nz up to twice the tower height)
+    lv = list(range(nz + 1)) if full else [int(v) for v in rng.permutation(nz + 2)[: int(rng.integers(2, 4))]]
     forcing = str(rng.choice(["ustar_series", "ustar_series", "z0"]))
     met = {"wind_speed": [float(rng.uniform(2.5, 6)) for _ in range(ns)], "wind_dir": [float(rng.uniform(0, 360)) for _ in range(ns)],
            "mol": [float(rng.choice([-1, 1]) * rng.uniform(80, 500)) for _ in range(ns)]}
